@@ -14,6 +14,18 @@ package state
 //   $saved[k]   identity of the object last written under trie key k by InsertTrieNode (0: none)
 //   $nsaved     number of InsertTrieNode calls that succeeded
 //   $deleted[k] key k was deleted by DeleteTrieNode
+// The ledger is keyed by the ACCOUNT an id addresses - acct(id), the state-trie leaf at util.Path(id).
+// Two spellings of one id can address the same leaf: the trie's full nodes map 'A'-'F' and 'a'-'f' to
+// the same child (github.com/0chain/common core/util FullNode.index), so acct is not injective; ids
+// that are not equal under case folding address different leaves (assumption on strings.EqualFold below).
+//@ uf acct (Str) Str
+//@ uf str_eqfold (Str Str) Bool
+//@ assume func strings.EqualFold
+//@   params s t
+//@   pure
+//@   ensures result == str_eqfold(s, t)
+//@   ensures s == t ==> result
+//@   ensures !result ==> acct(s) != acct(t)
 //@ ghost $bal (Str) Int
 //@ ghost $out (Str) Int
 //@ ghost $in (Str) Int
@@ -60,15 +72,15 @@ package state
 //@ iface 0chain.net/chaincore/chain/state.StateContextI.GetClientState
 //@   params self clientID
 //@   pure
-//@   ensures result1 == nil || result1 == util.ErrValueNotPresent ==> result0 != nil && fresh(result0) && result0.Balance == $bal[clientID] && result0.Nonce == $nonce[clientID]
-//@   ensures result1 == util.ErrValueNotPresent ==> $bal[clientID] == 0 && $nonce[clientID] == 0
-//@   ensures $nonce[clientID] >= 0
+//@   ensures result1 == nil || result1 == util.ErrValueNotPresent ==> result0 != nil && fresh(result0) && result0.Balance == $bal[acct(clientID)] && result0.Nonce == $nonce[acct(clientID)]
+//@   ensures result1 == util.ErrValueNotPresent ==> $bal[acct(clientID)] == 0 && $nonce[acct(clientID)] == 0
+//@   ensures $nonce[acct(clientID)] >= 0
 
 //@ iface 0chain.net/chaincore/chain/state.StateContextI.SetClientState
 //@   params self clientID s
 //@   modifies $bal, $nonce
-//@   ensures result1 == nil ==> $bal[clientID] == s.Balance && $nonce[clientID] == s.Nonce
-//@   ensures result1 == nil ==> forall k string :: k != clientID ==> $bal[k] == old($bal[k]) && $nonce[k] == old($nonce[k])
+//@   ensures result1 == nil ==> $bal[acct(clientID)] == s.Balance && $nonce[acct(clientID)] == s.Nonce
+//@   ensures result1 == nil ==> forall k string :: k != acct(clientID) ==> $bal[k] == old($bal[k]) && $nonce[k] == old($nonce[k])
 //@   ensures result1 != nil ==> forall k string :: $bal[k] == old($bal[k]) && $nonce[k] == old($nonce[k])
 
 // SetStateContext stamps the state with the current round and transaction hash only.
@@ -83,8 +95,8 @@ package state
 //@ iface 0chain.net/chaincore/chain/state.StateContextI.GetClientBalance
 //@   params self clientID
 //@   pure
-//@   ensures result1 == nil ==> result0 == $bal[clientID]
-//@   ensures result1 == util.ErrValueNotPresent ==> result0 == 0 && $bal[clientID] == 0
+//@   ensures result1 == nil ==> result0 == $bal[acct(clientID)]
+//@   ensures result1 == util.ErrValueNotPresent ==> result0 == 0 && $bal[acct(clientID)] == 0
 //@   ensures result0 >= 0
 
 //@ iface 0chain.net/chaincore/chain/state.StateContextI.AddTransfer
@@ -211,8 +223,8 @@ package state
 //@   modifies nothing
 //@ func (*StateContext).GetClientBalance
 //@   trusted
-//@   ensures result1 == nil ==> result0 == $bal[clientID]
-//@   ensures result1 == util.ErrValueNotPresent ==> result0 == 0 && $bal[clientID] == 0
+//@   ensures result1 == nil ==> result0 == $bal[acct(clientID)]
+//@   ensures result1 == util.ErrValueNotPresent ==> result0 == 0 && $bal[acct(clientID)] == 0
 //@   modifies nothing
 // (C04) A context validates only if the queued transfers out of the sender's account add up to at
 // most the transaction's value plus fee, and every signed transfer carries a valid signature of its
